@@ -399,6 +399,8 @@ class Evaluator(Run):
             return self.is_(a, b)
         if isinstance(op, ast.IsNot):
             return z3.Not(self.is_(a, b))
+        if isinstance(op, (ast.In, ast.NotIn)) and b.t.kind == "sref":
+            b = self.sref_value(b, self.old_heap)
         if isinstance(op, (ast.In, ast.NotIn)) and b.t.kind == "opaque" and not b.is_const:
             # membership in an opaque container: its declared `__contains__` external
             from . import models
@@ -591,6 +593,12 @@ class Evaluator(Run):
 
             return models.call_method(self, base, "__getitem__", [self.ev(sl, frame)], {}, node)
         idx = self.project(self.ev(sl, frame), kindp("int", "bool"), lab)
+        if k == "list" and not self.pure and self.cell(base).ty.elem.kind == "vset":
+            c = self.content(base)
+            n = z3.Length(c.z)
+            i = self.to_int(idx)
+            self.fail_if(z3.Or(i < -n, i >= n), "IndexError", lab)
+            return V(T.SetSlotRef(self.cell(base).ty.elem), (base, zsimp(self.norm_index(i, n))))
         if k == "list" and not self.pure and getattr(self.cell(base).ty.elem, "objlike", False):
             c = self.content(base)
             n = z3.Length(c.z)
@@ -667,6 +675,8 @@ class Evaluator(Run):
                 return Iter(z3.IntVal(0), None, concrete=[])
             if s.t.kind == "bytes":
                 return Iter(z3.Length(s.z), lambda i, s=s: V(T.Int, nth(s.z, i)), src_locs=[v.z] if k == "list" else [])
+            if k == "list" and not self.pure and s.t.elem.kind == "vset":
+                return Iter(z3.Length(s.z), lambda i, v=v, s=s: V(T.SetSlotRef(s.t.elem), (v, i)), src_locs=[], seq=s)
             if k == "list" and not self.pure and getattr(s.t.elem, "objlike", False):
                 return Iter(z3.Length(s.z), lambda i, v=v, s=s: V(T.ListItemRef(s.t.elem), (v, i)), src_locs=[v.z], seq=s)
             return Iter(z3.Length(s.z), lambda i, s=s: V(s.t.elem, nth(s.z, i)), src_locs=[v.z] if k == "list" else [], seq=s)
@@ -1308,9 +1318,16 @@ class Evaluator(Run):
         for hx in ab.get("havoc", ()):  # heap objects the abstracted statement may modify
             hv = self.spec_eval_in_frame(hx, frame, {})
             if hv.t.heap:
+                before = self.content(hv) if hv.t.kind == "list" else None
                 for loc in sorted(self.reachable(hv)):
                     self.write_check(loc)
                     self.havoc_loc(loc, "abs")
+                if ab.get("keep_below_top") and before is not None:
+                    # ASSUMED frame of the abstracted statement: only the LAST slot of the list may change
+                    after = self.content(hv)
+                    j = z3.Int(fresh_name("kb"))
+                    self.assume(z3.Length(after.z) == z3.Length(before.z))
+                    self.assume(z3.ForAll([j], z3.Implies(z3.And(0 <= j, j < z3.Length(before.z) - 1), after.z[j] == before.z[j]), patterns=[after.z[j]]))
         for en in ab.get("ensures", ()):  # ASSUMED facts about the abstracted statement (listed with its reason)
             self.assume(self.truthy(self.spec_eval_in_frame(en, frame, {})))
         if ab.get("may_return") is not None:
